@@ -3,7 +3,7 @@
    validator decided, checked against the model by vm_compute. *)
 From Coq Require Import String List NArith ZArith Bool.
 From J5V.lib Require Import Outcome Corr.
-From J5V.model Require Import RulesDecl RulesWrite Validate.
+From J5V.model Require Import RulesDecl RulesWrite RulesSpec Validate RulesSpecDec.
 Import ListNotations.
 
 (* decidable equality on emitted annotations (transparent, so it computes) *)
@@ -78,22 +78,39 @@ Definition out_agree (m : outcome fout) (o : outcome fout) : bool :=
   | _, _ => false
   end.
 
+Definition verdict_eqb (a b : verdict) : bool :=
+  match a, b with
+  | VAccept, VAccept | VReject, VReject | VError ECompile, VError ECompile | VError ERuntime, VError ERuntime => true
+  | _, _ => false
+  end.
+
+(* the Go oracle's reading of the declaration (None: the declaration is outside
+   what it judges) against the decision procedure of the Coq specification *)
+Definition spec_agree (m : bool) (g : option bool) : bool :=
+  match g with Some b => Bool.eqb m b | None => true end.
+
 (* one property: environment, position, declaration, what the compiler emitted,
-   and (value, the real validator accepts) pairs *)
+   and per value: what the real validator returned and what the Go oracle reads
+   the declaration as saying *)
 Inductive c12case :=
-| C12Case (env : enum_env) (idx : N) (d : prop) (obs : outcome fout) (vals : list (fvalue * bool))
-(* a whole message: the emitted fields and (one value per field, the real
-   validator raises no violation on any of these fields) *)
-| C12Obj (env : enum_env) (obs : list fout) (msgs : list (list fvalue * bool)).
+| C12Case (env : enum_env) (idx : N) (d : prop) (obs : outcome fout) (vals : list (fvalue * verdict * option bool))
+(* a whole message: the declarations, the emitted fields and per message (one
+   value per field): what the real validator returned (violations on these
+   fields only) and the Go oracle's conjunction of the declared rules *)
+| C12Obj (env : enum_env) (ds : list prop) (obs : list fout) (msgs : list (list fvalue * verdict * option bool)).
 
 Definition c12_check (c : c12case) : bool :=
   match c with
   | C12Case env idx d obs vals =>
       out_agree (write_prop env idx d) obs &&
       match obs with
-      | Ok o => forallb (fun p => Bool.eqb (validate_sem re_class_count (defined_numbers env) o (fst p)) (snd p)) vals
+      | Ok o => forallb (fun p => match p with (fv, vd, g) =>
+                  verdict_eqb (validate_sem re_class_ok re_class_count (defined_numbers env) o fv) vd
+                  && spec_agree (rule_semb re_class_count env d fv) g end) vals
       | _ => true
       end
-  | C12Obj env obs msgs =>
-      forallb (fun p => Bool.eqb (validate_obj re_class_count (defined_numbers env) obs (fst p)) (snd p)) msgs
+  | C12Obj env ds obs msgs =>
+      forallb (fun p => match p with (fvs, vd, g) =>
+                  verdict_eqb (validate_obj re_class_ok re_class_count (defined_numbers env) obs fvs) vd
+                  && spec_agree (rule_objb re_class_count env ds fvs) g end) msgs
   end.
